@@ -296,3 +296,133 @@ Qed.
 
 Lemma goto_back : forall len ip n, n <= ip -> ip < len -> goto len ip (- Z.of_nat n)%Z = Some (ip - n).
 Proof. intros len ip n H1 H2. rewrite goto_some by lia. f_equal. lia. Qed.
+
+(* ================================================================ a global invariant of the machine: in every frame
+   a name is bound at most once (bindings are made by assoc_set, removed by assoc_del, frames start empty) *)
+Definition keys_nd (l : list (str * N)) : Prop := NoDup (map fst l).
+Definition frames_nd (fs : list frame) : Prop := Forall (fun f => keys_nd (vars f)) fs.
+
+Lemma in_keys_assoc_set : forall k (v : N) x l, In x (map fst (assoc_set k v l)) -> x = k \/ In x (map fst l).
+Proof.
+  intros k v x. induction l as [|[k' v'] l IH]; cbn [assoc_set map fst In].
+  - intros [H|[]]; auto.
+  - destruct (str_eqb k' k) eqn:E; cbn [map fst In].
+    + apply str_eqb_iff in E. subst k'. intros [H|H]; auto.
+    + intros [H|H]; [auto|]. destruct (IH H); auto.
+Qed.
+Lemma keys_nd_assoc_set : forall k (v : N) l, keys_nd l -> keys_nd (assoc_set k v l).
+Proof.
+  unfold keys_nd. intros k v. induction l as [|[k' v'] l IH]; intros H; cbn [assoc_set map fst].
+  - constructor; [intros []|constructor].
+  - cbn [map fst] in H. inversion H as [|? ? Hn Hd]; subst. destruct (str_eqb k' k) eqn:E; cbn [map fst].
+    + apply str_eqb_iff in E. subst k'. constructor; assumption.
+    + constructor; [|now apply IH]. intros Hin. apply in_keys_assoc_set in Hin as [->|Hin]; [|contradiction].
+      rewrite str_eqb_refl in E. discriminate.
+Qed.
+Lemma in_keys_assoc_del : forall k x (l : list (str * N)), In x (map fst (assoc_del k l)) -> In x (map fst l).
+Proof.
+  intros k x. induction l as [|[k' v'] l IH]; cbn [assoc_del map fst In]; [auto|].
+  destruct (str_eqb k' k); cbn [map fst In]; [auto|]. intros [H|H]; auto.
+Qed.
+Lemma keys_nd_assoc_del : forall k (l : list (str * N)), keys_nd l -> keys_nd (assoc_del k l).
+Proof.
+  unfold keys_nd. intros k. induction l as [|[k' v'] l IH]; intros H; cbn [assoc_del map fst]; [exact H|].
+  cbn [map fst] in H. inversion H as [|? ? Hn Hd]; subst. destruct (str_eqb k' k); [exact Hd|].
+  cbn [map fst]. constructor; [|now apply IH]. intros Hin. apply Hn. eapply in_keys_assoc_del. exact Hin.
+Qed.
+Lemma assoc_none_notin : forall k (l : list (str * N)), ~ In k (map fst l) -> assoc k l = None.
+Proof.
+  intros k. induction l as [|[k' v'] l IH]; intros H; [reflexivity|]. cbn [assoc map fst In] in *.
+  destruct (str_eqb k' k) eqn:E; [apply str_eqb_iff in E; subst; exfalso; apply H; now left|]. apply IH. tauto.
+Qed.
+Lemma assoc_del_nd_none : forall k (l : list (str * N)), keys_nd l -> assoc k (assoc_del k l) = None.
+Proof.
+  unfold keys_nd. intros k. induction l as [|[k' v'] l IH]; intros H; [reflexivity|].
+  cbn [map fst] in H. inversion H as [|? ? Hn Hd]; subst. cbn [assoc_del].
+  destruct (str_eqb k' k) eqn:E.
+  - apply str_eqb_iff in E. subst k'. now apply assoc_none_notin.
+  - cbn [assoc]. rewrite E. now apply IH.
+Qed.
+
+Lemma nd_top : forall f fs vs, frames_nd (f :: fs) -> keys_nd vs -> frames_nd ({| lab := lab f; vars := vs |} :: fs).
+Proof. intros f fs vs H Hv. inversion H; subst. constructor; assumption. Qed.
+
+Lemma nd_bind_local : forall g n v g', bind_local g n v = Some g' -> frames_nd (frames g) -> frames_nd (frames g').
+Proof.
+  intros g n v g' H Hn. unfold bind_local in H. destruct (frames g) as [|f fs] eqn:E; [discriminate|].
+  cbn [cell_new] in H. inversion H; subst g'. cbn [with_frames frames]. apply nd_top; [exact Hn|].
+  apply keys_nd_assoc_set. inversion Hn; assumption.
+Qed.
+Lemma nd_store_var : forall g n v g', store_var g n v = Some g' -> frames_nd (frames g) -> frames_nd (frames g').
+Proof.
+  intros g n v g' H Hn. unfold store_var in H. destruct (find_in_function n (frames g)).
+  - inversion H; subst. exact Hn.
+  - eapply nd_bind_local; eassumption.
+Qed.
+Lemma nd_delete_names : forall ns vs vs', keys_nd vs -> delete_names ns vs = inl (Some vs') -> keys_nd vs'.
+Proof.
+  induction ns as [|n ns IH]; intros vs vs' H E; cbn [delete_names] in E.
+  - inversion E; subst. exact H.
+  - destruct (assoc n vs); [|discriminate]. eapply IH; [|exact E]. now apply keys_nd_assoc_del.
+Qed.
+Lemma nd_pop_frames : forall n g g', pop_frames n g = Some g' -> frames_nd (frames g) -> frames_nd (frames g').
+Proof.
+  induction n as [|n IH]; intros g g' H Hn; cbn [pop_frames] in H; [inversion H; subst; exact Hn|].
+  unfold pop_frame in H. destruct (frames g) as [|f fs] eqn:E; [discriminate|].
+  eapply IH; [exact H|]. cbn [with_frames frames]. inversion Hn; assumption.
+Qed.
+
+Definition sres_nd (r : sres) : Prop :=
+  match r with
+  | SNext _ g | SGoto _ _ g | SPush _ _ g | SGotoPop _ _ _ g | SPopScope _ g | SRet _ _ g | SCall _ _ _ _ g =>
+    frames_nd (frames g)
+  | SFail _ => True
+  end.
+
+Lemma exec_d_nd : forall d a g, frames_nd (frames g) -> sres_nd (exec_d d a g).
+Proof.
+  intros d a g Hn. destruct d; unfold exec_d;
+    repeat match goal with
+           | |- sres_nd (match ?x with _ => _ end) => destruct x eqn:?
+           | |- sres_nd (let '(_, _) := ?x in _) => destruct x eqn:?
+           end; cbn [sres_nd]; try exact Logic.I; try exact Hn;
+    try (eapply nd_bind_local; eassumption); try (eapply nd_store_var; eassumption).
+  all: cbn [with_frames frames];
+       match goal with Hn' : frames_nd (_ :: _) |- _ =>
+         apply nd_top; [exact Hn'|]; inversion Hn'; subst;
+         first [ eapply nd_delete_names; eassumption | apply keys_nd_assoc_del; assumption ] end.
+Qed.
+
+Lemma xstep_nd : forall name code a g a' g', xstep name code a g = Running a' g' ->
+  frames_nd (frames g) -> frames_nd (frames g').
+Proof.
+  intros name code a g a' g' H Hn. unfold xstep in H.
+  destruct (nth_error code (a_ip a)) as [i|]; [|discriminate].
+  assert (Hn' : frames_nd (frames (trc name a g i))) by exact Hn.
+  unfold Model.exec in H. destruct (decode i) as [d|e]; [|discriminate].
+  pose proof (exec_d_nd d a (trc name a g i) Hn') as Hs.
+  destruct (exec_d d a (trc name a g i)) as [a1 g1|off a1 g1|l a1 g1|off k a1 g1|a1 g1| | |e]; cbn [sres_nd] in Hs; try discriminate.
+  - inversion H; subst. exact Hs.
+  - destruct (goto (length code) (a_ip a1) off); inversion H; subst. exact Hs.
+  - inversion H; subst. unfold push_frame. cbn [with_frames frames]. constructor; [constructor|exact Hs].
+  - destruct (goto (length code) (a_ip a1) off); [|discriminate].
+    destruct (pop_frames k g1) as [g2|] eqn:E; inversion H; subst. eapply nd_pop_frames; eassumption.
+  - destruct (a_ss a1); [inversion H; subst; exact Hs|].
+    destruct (pop_frame g1) as [g2|] eqn:E; inversion H; subst.
+    apply (nd_pop_frames 1 g1 g'); [cbn [pop_frames]; now rewrite E|exact Hs].
+Qed.
+
+Lemma xsteps_nd : forall name code n a g a' g', xsteps name code n (Running a g) = Running a' g' ->
+  frames_nd (frames g) -> frames_nd (frames g').
+Proof.
+  intros name code. induction n as [|n IH]; intros a g a' g' H Hn.
+  - cbn in H. inversion H; subst. exact Hn.
+  - cbn [xsteps] in H. destruct (xstep name code a g) as [a1 g1|e1 g1|] eqn:E.
+    + eapply IH; [exact H|]. eapply xstep_nd; eassumption.
+    + rewrite xsteps_stop_failed in H. discriminate.
+    + rewrite xsteps_stop_escaped in H. discriminate.
+Qed.
+
+Lemma xrun_nd : forall name code a g a' g', xrun name code a g a' g' -> frames_nd (frames g) -> frames_nd (frames g').
+Proof. intros name code a g a' g' [n H]. eapply xsteps_nd. exact H. Qed.
+
